@@ -302,7 +302,9 @@ func Finish(res *CheckResult, tier Tier, seed int, t0 time.Time, writeBase bool,
 		}
 		violations++
 		path, real := "", false
-		if replayFn != nil && o.Status == "refuted" {
+		// battery replays (differential runs on the real pipeline) need no model: they are also tried when the
+		// solvers leave a previously discharged obligation undecided
+		if replayFn != nil && (o.Status == "refuted" || o.Status == "undecided" && batteryReplayProps[res.Prop] && o.Name != res.Prop+"/generator") {
 			path, real = replayFn(o, replayDir)
 		}
 		if path == "" {
